@@ -193,7 +193,10 @@ def _assigned_names(stmts: Sequence[ast.stmt]) -> list[str]:
 
 PURE_METHODS = {"get", "keys", "values", "items", "copy", "index", "count", "startswith", "endswith", "format", "join", "split",
                 "strip", "lower", "upper", "bit_length", "to_bytes", "from_bytes", "isdigit", "find", "replace", "encode",
-                "decode", "rstrip", "lstrip", "splitlines", "zfill", "rjust", "ljust", "hex"}
+                "decode", "rstrip", "lstrip", "splitlines", "zfill", "rjust", "ljust", "hex",
+                # fixedint / math constructors and functions reached as module attributes
+                "UInt8", "Int8", "UInt16", "Int16", "UInt32", "Int32", "UInt64", "Int64", "MutableUInt32", "MutableInt32",
+                "ceil", "floor", "log2", "sqrt", "__repr__", "__str__"}
 
 
 def _syntactically_pure(model: Model, name: str, depth: int = 0, _seen: Optional[set] = None) -> bool:
@@ -877,6 +880,15 @@ class Printer:
         if isinstance(e, ast.Slice):
             return f"{sh(e.lower) if e.lower else ''}:{sh(e.upper) if e.upper else ''}" + (f":{sh(e.step)}" if e.step else "")
         if isinstance(e, ast.Call):
+            if isinstance(e.func, ast.Name) and e.func.id in ("any", "all") and len(e.args) == 1 and not e.keywords \
+                    and isinstance(e.args[0], (ast.GeneratorExp, ast.ListComp)):
+                g = copy.copy(e.args[0])
+                g._truth_only = True  # type: ignore[attr-defined]
+                body = sh(g)
+                for k in ("ListComp(", "GeneratorExp("):
+                    if body.startswith(k):
+                        body = body[len(k):-1]
+                return f"{e.func.id}({body})"
             sig = self._sig(e)
             args = [sh(a) for a in e.args]
             kws = [(k.arg, sh(k.value)) for k in e.keywords]
@@ -961,9 +973,12 @@ class Printer:
                         ren[n.id] = f"_c{len(ren)}"
             sub = Printer(self.model, [], {**self.aliases, **ren}, self.canonical)
             sub.params = {k: v for k, v in self.params.items() if k not in ren}
-            gens = " ".join(f"for {sub._show(g.target)} in {sub._show(g.iter)}" + "".join(f" if {sub.show_test(i)}" for i in g.ifs) for g in e.generators)
+            conds = [sub.show_test(ast.BoolOp(op=ast.And(), values=list(g.ifs)) if len(g.ifs) > 1 else g.ifs[0]) if g.ifs else "" for g in e.generators]
+            gens = " ".join(f"for {sub._show(g.target)} in {sub._show(g.iter)}" + (f" if {c}" if c else "") for g, c in zip(e.generators, conds))
             if isinstance(e, ast.DictComp):
                 head = f"{sub._show(e.key)}: {sub._show(e.value)}"
+            elif getattr(e, "_truth_only", False):
+                head = sub.show_test(e.elt)  # any(...)/all(...): only the truth value of each element matters
             else:
                 head = sub._show(e.elt)
             return f"{type(e).__name__}({head} {gens})"
